@@ -20,7 +20,7 @@ def embed_dir(sim, z):
     return complex(v[0], v[1])
 
 
-def make_case_objects(t, k, sim, rng, ids=None, resample=None, cell_perm=None, shifts=None, flips=None):
+def make_case_objects(t, k, sim, rng, ids=None, resample=None, cell_perm=None, shifts=None, flips=None, snap_seed=None):
     """Build real objects for tissue t (gen.equilibrium format). Returns dict with vertices/edges/cells,
     info (id maps) and the interior points used."""
     import forsys as fs
@@ -30,6 +30,17 @@ def make_case_objects(t, k, sim, rng, ids=None, resample=None, cell_perm=None, s
     cells = [list(c) for c in t["cells"]]
     desc, info = tissue.instance_desc(pos, cells, k, sim, id_offset=ids.get("offset", 0), id_stride=ids.get("stride", 1),
                                       interior_pts=interior, shuffle_rng=ids.get("shuffle"))
+    if snap_seed is not None and k >= 1:
+        # make some end segments EXACTLY axis aligned (dx or dy == 0.0): the first / last interior point of an interface
+        # takes the junction's x or y. Decided per physical interface end, so two runs of a pair get the same geometry.
+        srng = random.Random(snap_seed)
+        at = {v[0]: i for i, v in enumerate(desc["V"])}
+        for (a, b) in sorted(info["interior"]):
+            pts = info["interior"][(a, b)]
+            for junction, nb in ((info["newid"][a], pts[0]), (info["newid"][b], pts[-1])):
+                r = srng.random()
+                if r < 0.25:
+                    desc["V"][at[nb]][1 + (r < 0.125)] = desc["V"][at[junction]][1 + (r < 0.125)]
     if shifts or flips or cell_perm:
         C = desc["C"]
         for ci, (cid, cyc) in enumerate(C):
@@ -226,13 +237,13 @@ def junction_versors(frame, fit, vidx):
 
 
 def static_events(case, t, k, sim, rng, want, build_opts=None, solve_opts=None, ids=None, resample=None,
-                  equilibrium=True, extra_env=None, group=None, with_pressure=False, phys=None, inplace_from=None):
+                  equilibrium=True, extra_env=None, group=None, with_pressure=False, phys=None, inplace_from=None, snap_seed=None):
     """Run the real pipeline once; returns the list of trace events (all ints/strings/bools)."""
     import forsys as fs
     build_opts = dict(build_opts or {})
     solve_opts = dict(solve_opts or {})
     evs = []
-    o = make_case_objects(t, k, inplace_from or sim, rng, ids=ids, resample=resample, **(group or {}))
+    o = make_case_objects(t, k, inplace_from or sim, rng, ids=ids, resample=resample, snap_seed=snap_seed, **(group or {}))
     vertices, edges, cells = o["vertices"], o["edges"], o["cells"]
     frame = fs.frames.Frame(0, vertices, edges, cells, time=0)
     pre_forsys = None
@@ -755,6 +766,7 @@ def pair_events(case, spec, rng):
                             ids=ids, resample=None, equilibrium=spec["tissue"]["kind"] == "equilibrium" and not spec["tissue"].get("noise"),
                             group=group, with_pressure=spec.get("pressure", True), phys=(run, g),
                             inplace_from=simA if (run == 2 and spec.get("inplace")) else None,
+                            snap_seed=spec.get("snap_seed"),
                             extra_env={"tolC": fx(tol) if tol else 0, "conditioned": tol is not None})
         evs += sub
     return evs
